@@ -11,17 +11,21 @@
 //                                   (detail = "<alias env>\t<ref env>", see fn graph); used by the classifiers only
 //   K  <n>                          driver self-test: n = 0 panic, 1 stack overflow, 2 huge allocation, 3 endless loop
 //
-// Output, one line per case:  <verdict>\t<wall microseconds>\t<cpu microseconds of the main thread>[\t<detail>]
+// Output, one line per case, prefixed "@@\t" (the library itself prints to stdout on some paths, e.g.
+// control.rs:619 `println!("controller: ...")`; unmarked lines are ignored by the reader):  <verdict>\t<wall microseconds>\t<cpu microseconds of the main thread>[\t<detail>]
 //   verdict = OK | ERR | PANIC (detail = source location and message of the panic) | TIMEOUT
 // A stack overflow or an allocator abort kills the process; the Python side sees a short
 // output and the exit status, and restarts after the case that died.  The per-case watchdog
-// (VERIF_CASE_MS, default 10000) prints TIMEOUT for the running case and exits with status 124.
+// (VERIF_CASE_MS, default 10000; CPU milliseconds of the main thread, so that a loaded machine does not
+// produce false timeouts; wall-clock backstop at 8x + 5 s) prints TIMEOUT for the running case and exits
+// with status 124.
 use std::io::{self, BufRead, Write};
 use std::sync::atomic::{AtomicU64, Ordering};
 use std::sync::Mutex;
 use std::time::{Duration, Instant};
 
-static DEADLINE_MS: AtomicU64 = AtomicU64::new(0); // 0 = no case running
+static DEADLINE_MS: AtomicU64 = AtomicU64::new(0); // wall-clock backstop; 0 = no case running
+static START_CPU_US: AtomicU64 = AtomicU64::new(0); // cpu time of the main thread when the case started
 static PANIC_INFO: Mutex<String> = Mutex::new(String::new());
 static DETAIL: Mutex<String> = Mutex::new(String::new());
 
@@ -256,10 +260,18 @@ fn main() {
   std::thread::spawn(move || loop {
     std::thread::sleep(Duration::from_millis(25));
     let d = DEADLINE_MS.load(Ordering::SeqCst);
-    if d != 0 && epoch.elapsed().as_millis() as u64 > d {
+    let over_cpu = match cpu_us() {
+      Some(c) => d != 0 && (c as u64).saturating_sub(START_CPU_US.load(Ordering::SeqCst)) > case_ms * 1000,
+      None => d != 0 && epoch.elapsed().as_millis() as u64 + 7 * case_ms + 5000 > d,
+    };
+    if d != 0
+      && d != u64::MAX
+      && (over_cpu || epoch.elapsed().as_millis() as u64 > d)
+      && DEADLINE_MS.compare_exchange(d, u64::MAX, Ordering::SeqCst, Ordering::SeqCst).is_ok()
+    {
       let so = io::stdout();
       let mut o = so.lock();
-      let _ = writeln!(o, "TIMEOUT\t{}\t{}", case_ms * 1000, case_ms * 1000);
+      let _ = writeln!(o, "\n@@\tTIMEOUT\t{}\t{}", case_ms * 1000, case_ms * 1000);
       let _ = o.flush();
       std::process::exit(124);
     }
@@ -271,7 +283,8 @@ fn main() {
       Err(_) => break,
     };
     let parts: Vec<&str> = line.split('\t').collect();
-    DEADLINE_MS.store(epoch.elapsed().as_millis() as u64 + case_ms, Ordering::SeqCst);
+    START_CPU_US.store(cpu_us().unwrap_or(0) as u64, Ordering::SeqCst);
+    DEADLINE_MS.store(epoch.elapsed().as_millis() as u64 + 8 * case_ms + 5000, Ordering::SeqCst);
     let t0 = Instant::now();
     let c0 = cpu_us();
     let r = std::panic::catch_unwind(|| dispatch(&parts));
@@ -281,21 +294,26 @@ fn main() {
       _ => wall,
     };
     let us = format!("{}\t{}", wall, cpu);
-    DEADLINE_MS.store(0, Ordering::SeqCst);
+    if DEADLINE_MS.swap(0, Ordering::SeqCst) == u64::MAX {
+      // the watchdog has claimed this case and is reporting it
+      loop {
+        std::thread::sleep(Duration::from_millis(100));
+      }
+    }
     let so = io::stdout();
     let mut o = so.lock();
     match r {
       Ok(s) => {
         let d = DETAIL.lock().map(|mut g| std::mem::take(&mut *g)).unwrap_or_default();
         if d.is_empty() {
-          writeln!(o, "{}\t{}", s, us).unwrap()
+          writeln!(o, "\n@@\t{}\t{}", s, us).unwrap()
         } else {
-          writeln!(o, "{}\t{}\t{}", s, us, d).unwrap()
+          writeln!(o, "\n@@\t{}\t{}\t{}", s, us, d).unwrap()
         }
       }
       Err(_) => {
         let m = PANIC_INFO.lock().map(|g| g.clone()).unwrap_or_default();
-        writeln!(o, "PANIC\t{}\t{}", us, m).unwrap()
+        writeln!(o, "\n@@\tPANIC\t{}\t{}", us, m).unwrap()
       }
     }
     o.flush().unwrap();
